@@ -48,7 +48,7 @@ SAFE_CALLS = {
     "match", "compile", "zeros", "identity", "transpose", "all", "any", "fabs", "asarray", "array", "abs",
     "Structure", "PDFFitStructure", "getLastAtom", "isfloat", "exc_info", "with_traceback", "StringIO",
     "StructureFormatError", "NotImplementedError", "format", "abcABG", "isanisotropic", "hasattr", "sum", "bool",
-    "_linesIterator", "staticmethod", "contextmanager", "floor", "re_split",
+    "_linesIterator", "staticmethod", "contextmanager", "floor", "re_split", "set", "add",
 }
 
 
